@@ -106,6 +106,8 @@ def check(chk, fx):
     # the names printed in "Unexpected <term>" come from the term getters
     from .. import termrules
     termrules.termapi(chk, fx)
+    from .. import primrules
+    primrules.prims(chk, fx, "UTIL", "TVAL")
 
 
 def rep3(chk, fx, table, site):
